@@ -11,6 +11,7 @@ import PsutilModel.Proofs.C06
 import PsutilModel.Proofs.C06Status
 import PsutilModel.Proofs.C06Ctx
 import PsutilModel.Proofs.C06Witness
+import PsutilModel.Proofs.C06Ext
 import Mathlib.Tactic.NormNum
 import PsutilModel.Model.C06Gen
 deriving instance DecidableEq for Except
@@ -237,6 +238,314 @@ theorem C06_text_mode_counterexample : ¬ UidsExact cfgTextMode := by
     rw [witnessStatus_bytes]; decide
   rw [h2] at h1
   revert h1; decide
+
+
+/-! # The code around the parsers (Model/C06Ext.lean)
+
+  `xcfg` is built from translator facts about `_psposix.get_terminal_map`, `_pslinux.boot_time`,
+  `Process.create_time` and the loop of `Process.threads`. -/
+
+theorem xcfg_good : xcfg.Good := by
+  constructor <;> decide
+
+/-! ## `terminal()` through the real `get_terminal_map()` -/
+
+/-- the first `terminal()` call of the interpreter scans /dev; its answer and the map it leaves in
+    the memo cache are correct for EVERY tty number — provided everything the globs match is a
+    device node, or the code tests `S_ISCHR` -/
+theorem terminal_first_call (x : XCfg) (hx : x.Good) (listing : List (Bytes × NodeKind)) (r : StatRec)
+    (hwf : r.WF) (hdev : x.tmapChecksChr = true ∨ AllDevices listing) :
+    ∃ m, terminalCall cfg x none (osView listing) (renderStat r) = (.ok (m.lookup r.ttyNr), some m)
+      ∧ ∀ nr, TerminalOk listing nr (m.lookup nr) := by
+  obtain ⟨m, hm, hinv⟩ := tmap_inv x hx.tmapSkipsVanished listing [] [] hdev
+    (by intro nr; simp [TerminalOk, IsTerminalOf, List.lookup])
+  refine ⟨m, ?_, by simpa using hinv⟩
+  unfold terminalCall
+  rw [C06_stat_roundtrip r hwf]
+  simp only [bind, Except.bind, rawView, pyInt_renderDec, hx.tmapMemoized, if_true, hm,
+    lookup_tmapToInt]
+
+/-- Full statement: the tty number is mapped to the path of the character device that has it,
+    `None` exactly when no listed device has it — for every content of /dev. -/
+def TerminalMapExact_Full (x : XCfg) : Prop :=
+  ∀ (listing : List (Bytes × NodeKind)) (r : StatRec), r.WF →
+    ∃ out c, terminalCall cfg x none (osView listing) (renderStat r) = (.ok out, c)
+      ∧ TerminalOk listing r.ttyNr out
+
+/-- `terminal()` over an abstract /dev: whatever the globs list (any order, entries that vanish
+    before `os.stat`, several names for one device), the result is the path of a character device
+    whose number is the record's tty_nr, and `None` iff there is none. Holds for the current code
+    when every matched path is a device node (`AllDevices`), and without that hypothesis for a
+    `get_terminal_map` that tests `S_ISCHR`. -/
+theorem C06_terminal_map_exact (listing : List (Bytes × NodeKind)) (r : StatRec) (hwf : r.WF)
+    (hdev : xcfg.tmapChecksChr = true ∨ AllDevices listing) :
+    ∃ out c, terminalCall cfg xcfg none (osView listing) (renderStat r) = (.ok out, c)
+      ∧ TerminalOk listing r.ttyNr out := by
+  obtain ⟨m, h1, h2⟩ := terminal_first_call xcfg xcfg_good listing r hwf hdev
+  exact ⟨_, _, h1, h2 r.ttyNr⟩
+
+/-- the repaired configuration meets the full statement -/
+theorem C06_terminal_map_exact_repaired : TerminalMapExact_Full { xcfg with tmapChecksChr := true } := by
+  intro listing r hwf
+  have hg : ({ xcfg with tmapChecksChr := true } : XCfg).Good := by constructor <;> decide
+  obtain ⟨m, h1, h2⟩ := terminal_first_call _ hg listing r hwf (Or.inl rfl)
+  exact ⟨_, _, h1, h2 r.ttyNr⟩
+
+/-- a process WITHOUT controlling terminal (tty_nr 0) -/
+def witnessNoTty : StatRec := { witnessThread with ttyNr := 0 }
+/-- a process on pts/0 (136:0 = 34816) -/
+def witnessPts0 : StatRec := { witnessThread with ttyNr := 34816 }
+/-- "/dev/ttyX" -/
+def pathTtyX : Bytes := [47, 100, 101, 118, 47, 116, 116, 121, 88]
+/-- "/dev/pts/0" -/
+def pathPts0 : Bytes := [47, 100, 101, 118, 47, 112, 116, 115, 47, 48]
+
+/-- Without the `S_ISCHR` test the full statement is false: a REGULAR FILE `/dev/ttyX` (st_rdev 0)
+    becomes the "terminal" of every process that has none (tty_nr 0). -/
+theorem C06_terminal_nondevice_counterexample :
+    ¬ TerminalMapExact_Full { xcfg with tmapChecksChr := false } := by
+  intro h
+  obtain ⟨out, c, h1, h2⟩ := h [(pathTtyX, NodeKind.other 0)] witnessNoTty witnessThread_wf
+  have hcall : terminalCall cfg { xcfg with tmapChecksChr := false }
+      none (osView [(pathTtyX, NodeKind.other 0)]) (renderStat witnessNoTty)
+      = (.ok (some pathTtyX), some [(0, pathTtyX)]) := by
+    unfold terminalCall
+    rw [C06_stat_roundtrip witnessNoTty witnessThread_wf]
+    simp only [bind, Except.bind, rawView, pyInt_renderDec]
+    decide
+  rw [hcall] at h1
+  simp only [Prod.mk.injEq, Except.ok.injEq] at h1
+  rw [← h1.1] at h2
+  revert h2
+  simp [TerminalOk, IsTerminalOf]
+
+/-- `get_terminal_map` is memoised: once the map exists, `terminal()` answers from it whatever
+    /dev looks like now -/
+theorem C06_terminal_memoized (m : TMap) (now : List (Bytes × StatOut)) (r : StatRec) (hwf : r.WF) :
+    terminalCall cfg xcfg (some m) now (renderStat r) = (.ok (m.lookup r.ttyNr), some m) := by
+  unfold terminalCall
+  rw [C06_stat_roundtrip r hwf]
+  simp only [bind, Except.bind, rawView, pyInt_renderDec, xcfg_good.tmapMemoized, if_true,
+    lookup_tmapToInt]
+
+/-- … hence every later call is exact with respect to the /dev of the FIRST call -/
+theorem C06_terminal_first_scan_wins (first now : List (Bytes × NodeKind)) (r0 r1 : StatRec)
+    (hwf0 : r0.WF) (hwf1 : r1.WF) (hdev : xcfg.tmapChecksChr = true ∨ AllDevices first) :
+    ∃ o0 m, terminalCall cfg xcfg none (osView first) (renderStat r0) = (.ok o0, some m)
+      ∧ ∃ o1, terminalCall cfg xcfg (some m) (osView now) (renderStat r1) = (.ok o1, some m)
+        ∧ TerminalOk first r1.ttyNr o1 := by
+  obtain ⟨m, h1, h2⟩ := terminal_first_call xcfg xcfg_good first r0 hwf0 hdev
+  exact ⟨_, m, h1, _, C06_terminal_memoized m _ r1 hwf1, h2 r1.ttyNr⟩
+
+/-- Full statement for a long-lived interpreter: a later call is exact for the /dev of its own moment. -/
+def TerminalCurrentTree_Full (x : XCfg) : Prop :=
+  ∀ (first now : List (Bytes × NodeKind)) (r0 r1 : StatRec), r0.WF → r1.WF →
+    AllDevices first → AllDevices now →
+    ∀ o0 c0, terminalCall cfg x none (osView first) (renderStat r0) = (.ok o0, c0) →
+      ∃ o1 c1, terminalCall cfg x c0 (osView now) (renderStat r1) = (.ok o1, c1)
+        ∧ TerminalOk now r1.ttyNr o1
+
+/-- … which the memoised map does not give: a pty created after the first `terminal()` call of
+    the interpreter is never seen (first scan: empty /dev/pts; then /dev/pts/0 appears and a
+    process runs on it → `None`). -/
+theorem C06_terminal_stale_counterexample : ¬ TerminalCurrentTree_Full xcfg := by
+  intro h
+  have hw : witnessPts0.WF := witnessThread_wf
+  have h0 : terminalCall cfg xcfg none (osView []) (renderStat witnessNoTty) = (.ok none, some []) := by
+    unfold terminalCall
+    rw [C06_stat_roundtrip witnessNoTty witnessThread_wf]
+    simp only [bind, Except.bind, rawView, pyInt_renderDec]
+    decide
+  obtain ⟨o1, c1, h1, h2⟩ := h [] [(pathPts0, NodeKind.chr 34816)] witnessNoTty witnessPts0
+    witnessThread_wf hw (by intro e he; simp at he) (by intro e he r; simp at he; subst he; simp) _ _ h0
+  rw [C06_terminal_memoized [] _ witnessPts0 hw] at h1
+  simp only [Prod.mk.injEq, Except.ok.injEq] at h1
+  rw [← h1.1] at h2
+  revert h2
+  simp [TerminalOk, IsTerminalOf, List.lookup, witnessPts0]
+
+/-! ## `create_time()` from the text of BOTH files -/
+
+/-- `boot_time()` returns the number of the `btime` line of any /proc/stat -/
+theorem C06_boot_time_exact (w : ProcStatW) (hwf : w.WF) :
+    bootTime xcfg (renderProcStat w) = .ok (w.btime : Rat) :=
+  bootTime_render xcfg xcfg_good w hwf
+
+/-- End to end: from the text of /proc/stat and of /proc/<pid>/stat, with no boot time cached yet,
+    `create_time()` is `btime + starttime / CLK_TCK` as an exact rational, and BOOT_TIME is then
+    pinned to that btime. -/
+theorem C06_create_time_end_to_end (tck : Nat) (w : ProcStatW) (hw : w.WF) (r : StatRec) (hwf : r.WF) :
+    createTimeCall cfg xcfg tck none (renderProcStat w) (renderStat r)
+      = (.ok (Spec.createTime tck (w.btime : Rat) r), some (w.btime : Rat)) := by
+  unfold createTimeCall bootTimeCall
+  rw [C06_stat_roundtrip r hwf, C06_boot_time_exact w hw]
+  simp [bind, Except.bind, rawView, pyFloat_renderDec, Spec.createTime, Rat.add_comm]
+
+/-- Once BOOT_TIME is pinned (≠ 0), `create_time()` uses it and does not look at /proc/stat at all:
+    whatever that file contains now (a stepped clock, garbage), the result is the pinned boot
+    time plus `starttime / CLK_TCK`, and the pin stays. -/
+theorem C06_create_time_uses_pinned_boot_time (tck : Nat) (b : Rat) (hb : b ≠ 0) (procStatNow : Bytes)
+    (r : StatRec) (hwf : r.WF) :
+    createTimeCall cfg xcfg tck (some b) procStatNow (renderStat r)
+      = (.ok (Spec.createTime tck b r), some b) := by
+  unfold createTimeCall
+  rw [C06_stat_roundtrip r hwf]
+  simp [bind, Except.bind, rawView, pyFloat_renderDec, Spec.createTime, Rat.add_comm,
+    xcfg_good.createUsesCachedBoot, hb]
+
+/-! ## `threads()`: which threads, in which order -/
+
+/-- `thread_ids.sort()` puts the directory entries in ascending order of their NAMES — the decimal
+    tids compared as strings ("10" < "100" < "9"), whatever order `os.listdir` used -/
+theorem C06_threads_order (listing : List Nat) : IsNameOrder listing (sortTids xcfg listing) := by
+  have hs : sortTids xcfg listing = listing.mergeSort tidLE := by
+    simp [sortTids, xcfg_good.threadsSorts]
+  rw [hs]
+  refine ⟨List.mergeSort_perm _ _, ?_⟩
+  have := List.pairwise_mergeSort (le := tidLE)
+    (fun a b c h1 h2 => lexLE_trans _ _ _ h1 h2) (fun a b => lexLE_total _ _) listing
+  refine this.imp ?_
+  intro a b hab
+  rw [← lexLE_eq_strLE]; exact hab
+
+/-- The VALUE of `threads()`: for every listing order, every set of threads that end while the
+    directory is being read (`recs t = none`), every thread name and old-kernel record: the
+    result is the per-thread view of exactly the threads that could be read, in name order —
+    as long as the process itself is still there at the end of the scan. -/
+theorem C06_threads_value (tck : Nat) (listing : List Nat) (recs : Nat → Option StatRec)
+    (hwf : ∀ t r, recs t = some r → r.WF ∧ r.pid = t) (alive : Bool)
+    (hal : alive = true ∨ ∀ t ∈ listing, recs t ≠ none) :
+    threadsCall cfg xcfg tck listing (fun t => fileOf (recs t)) alive
+      = .ok ((Spec.threadsValue tck (sortTids xcfg listing) recs).map toOut) := by
+  unfold threadsCall
+  rw [scan_render cfg cfg_good xcfg xcfg_good.threadsSkipsVanished tck recs hwf]
+  rcases hal with h | h
+  · simp [h]
+  · have hany : ((sortTids xcfg listing).any fun t => (recs t).isNone) = false := by
+      rw [List.any_eq_false]
+      intro t ht
+      have ht' : t ∈ listing := (C06_threads_order listing).1.mem_iff.mp ht
+      cases hr : recs t with
+      | none => exact absurd hr (h t ht')
+      | some _ => simp
+    simp [hany]
+
+/-- … and when a thread vanished AND the process is gone at the end: NoSuchProcess, not a partial list -/
+theorem C06_threads_gone (tck : Nat) (listing : List Nat) (recs : Nat → Option StatRec)
+    (hwf : ∀ t r, recs t = some r → r.WF ∧ r.pid = t) (t : Nat) (ht : t ∈ listing) (hv : recs t = none) :
+    threadsCall cfg xcfg tck listing (fun t => fileOf (recs t)) false = .error .noSuchProcess := by
+  unfold threadsCall
+  rw [scan_render cfg cfg_good xcfg xcfg_good.threadsSkipsVanished tck recs hwf]
+  have hany : ((sortTids xcfg listing).any fun t => (recs t).isNone) = true := by
+    rw [List.any_eq_true]
+    exact ⟨t, (C06_threads_order listing).1.mem_iff.mpr ht, by simp [hv]⟩
+  simp [hany, xcfg_good.threadsChecksAlive]
+
+/-- old kernels: a thread record that ends at `policy` (no `delayacct_blkio_ticks` …) is read
+    exactly like a full one — `threads()` only indexes columns 11 and 12 after the name -/
+theorem C06_threads_old_kernel (tck : Nat) (r : StatRec) (hwf : r.WF) (_hold : r.tail = none) :
+    threadsCall cfg xcfg tck [r.pid] (fun _ => fileOf (some r)) true
+      = .ok [⟨r.pid, (r.utime : Rat) / tck, (r.stime : Rat) / tck⟩] := by
+  have h := C06_threads_value tck [r.pid] (fun t => if t = r.pid then some r else none)
+    (by intro t r' h; split at h <;> simp at h; subst h; exact ⟨hwf, by simp_all⟩) true (Or.inl rfl)
+  have hs : sortTids xcfg [r.pid] = [r.pid] := by simp [sortTids]
+  have hf : threadsCall cfg xcfg tck [r.pid] (fun _ => fileOf (some r)) true
+      = threadsCall cfg xcfg tck [r.pid] (fun t => fileOf (if t = r.pid then some r else none)) true := by
+    simp [threadsCall, hs]
+  rw [hf, h, hs]
+  simp [Spec.threadsValue, toOut, threadView]
+
+/-! ## status tokens: exactly `\d+` -/
+
+/-- A group of the status regexes accepts a non-empty, maximal run of ASCII digits after a tab and
+    nothing else (no sign, blank, `0x`, `_`, non-ASCII digit); such a token always converts. Hence
+    for EVERY byte string as status file `uids()`/`gids()`/`num_threads()` either return numbers or
+    raise IndexError (no matching line) — never ValueError — and `num_ctx_switches()` additionally
+    NotImplementedError (no match at all). -/
+theorem C06_status_tokens_digits_only (file : Bytes) :
+    ((∃ v, uids cfg file = .ok v) ∨ uids cfg file = .error .indexError)
+    ∧ ((∃ v, gids cfg file = .ok v) ∨ gids cfg file = .error .indexError)
+    ∧ ((∃ v, numThreads cfg file = .ok v) ∨ numThreads cfg file = .error .indexError)
+    ∧ ((∃ v, numCtxSwitches cfg file = .ok v) ∨ numCtxSwitches cfg file = .error .indexError
+        ∨ numCtxSwitches cfg file = .error .notImplementedError) := by
+  have ids : ∀ (anch : Bool) (key data : Bytes),
+      (∃ v, ids3 anch key data = .ok v) ∨ ids3 anch key data = .error .indexError := by
+    intro anch key data
+    unfold ids3
+    cases hf : findAll anch key 3 data with
+    | nil => exact Or.inr rfl
+    | cons gs rest =>
+      obtain ⟨hl, hd⟩ := findAllGo_tokens anch key 3 data 0 true gs (by
+        show gs ∈ findAll anch key 3 data; rw [hf]; simp)
+      match gs, hl, hd with
+      | [a, b, c], _, hd =>
+        obtain ⟨na, ha⟩ := decOf_digits a (hd a (by simp)).1 (hd a (by simp)).2
+        obtain ⟨nb, hb⟩ := decOf_digits b (hd b (by simp)).1 (hd b (by simp)).2
+        obtain ⟨nc, hc⟩ := decOf_digits c (hd c (by simp)).1 (hd c (by simp)).2
+        exact Or.inl ⟨(na, nb, nc), by simp [ha, hb, hc, bind, Except.bind, pure, Except.pure]⟩
+  refine ⟨ids _ _ _, ids _ _ _, ?_, ?_⟩
+  · unfold numThreads
+    cases hf : findAll cfg.thrAnchored cfg.thrKey 1 (readStatus cfg file) with
+    | nil => exact Or.inr rfl
+    | cons gs rest =>
+      obtain ⟨hl, hd⟩ := findAllGo_tokens _ _ 1 _ 0 true gs (by
+        show gs ∈ findAll cfg.thrAnchored cfg.thrKey 1 (readStatus cfg file); rw [hf]; simp)
+      match gs, hl, hd with
+      | [a], _, hd =>
+        obtain ⟨na, ha⟩ := decOf_digits a (hd a (by simp)).1 (hd a (by simp)).2
+        exact Or.inl ⟨na, by simp [ha]⟩
+  · unfold numCtxSwitches
+    cases hf : findAll cfg.ctxAnchored cfg.ctxKey 1 (readStatus cfg file) with
+    | nil => exact Or.inr (Or.inr rfl)
+    | cons gs rest =>
+      have hmem : ∀ g ∈ gs :: rest, g.length = 1 ∧ ∀ t ∈ g, t ≠ [] ∧ ∀ c ∈ t, isDigit c = true := by
+        intro g hg
+        exact findAllGo_tokens _ _ 1 _ 0 true g (by
+          show g ∈ findAll cfg.ctxAnchored cfg.ctxKey 1 (readStatus cfg file); rw [hf]; exact hg)
+      obtain ⟨hl, hd⟩ := hmem gs (by simp)
+      match gs, hl, hd with
+      | [a], _, hd =>
+        cases rest with
+        | nil => exact Or.inr (Or.inl rfl)
+        | cons gs2 rest2 =>
+          obtain ⟨hl2, hd2⟩ := hmem gs2 (by simp)
+          match gs2, hl2, hd2 with
+          | [b], _, hd2 =>
+            obtain ⟨na, ha⟩ := decOf_digits a (hd a (by simp)).1 (hd a (by simp)).2
+            obtain ⟨nb, hb⟩ := decOf_digits b (hd2 b (by simp)).1 (hd2 b (by simp)).2
+            exact Or.inl ⟨(na, nb), by simp [ha, hb, bind, Except.bind, pure, Except.pure]⟩
+
+/-- what a token must look like, on the match itself: `KEY` then `n` times (tab, non-empty maximal
+    digit run); e.g. `Uid:\t-1`, `Uid:\t 1`, `Uid:\t0x1f` give no group -/
+theorem C06_status_match_shape (key : Bytes) (n : Nat) (s : Bytes) (gs : List Bytes) (rest : Bytes)
+    (h : matchAt key n s = some (gs, rest)) :
+    gs.length = n ∧ (∀ g ∈ gs, g ≠ [] ∧ ∀ c ∈ g, isDigit c = true)
+      ∧ (n ≠ 0 → ∀ c, rest.head? = some c → isDigit c = false) := by
+  unfold matchAt at h
+  cases hd : dropPrefix? key s with
+  | none => simp [hd] at h
+  | some r =>
+    simp only [hd] at h
+    obtain ⟨h1, h2, _, h4⟩ := matchGroups_tokens n r gs rest h
+    exact ⟨h1, h2, h4⟩
+
+example : matchAt [85, 105, 100, 58] 1 [85, 105, 100, 58, 9, 45, 49] = none := by decide   -- "Uid:\t-1"
+example : matchAt [85, 105, 100, 58] 1 [85, 105, 100, 58, 9, 32, 49] = none := by decide   -- "Uid:\t 1"
+example : matchAt [85, 105, 100, 58] 1 [85, 105, 100, 58, 9, 48, 120, 49] = some ([[48]], [120, 49]) := by
+  decide                                                                                   -- "Uid:\t0x1" → "0"
+/-- "10", "100", "9" is the order threads() reports tids 9, 10, 100 in -/
+example : IsNameOrder [9, 10, 100] [10, 100, 9] := by
+  have h9 : renderDec 9 = [57] := by simp [renderDec, renderRadix, renderRadixAux, decimal]
+  have h10 : renderDec 10 = [49, 48] := by simp [renderDec, renderRadix, renderRadixAux, decimal]
+  have h100 : renderDec 100 = [49, 48, 48] := by simp [renderDec, renderRadix, renderRadixAux, decimal]
+  refine ⟨by decide, ?_⟩
+  simp [h9, h10, h100, strLE]
+/-- a /proc/stat with lines before and after `btime` meets `ProcStatW.WF` -/
+example : (⟨[[99, 112, 117, 32, 49]], 1700000000, [[112, 114, 111, 99, 101, 115, 115, 101, 115, 32, 55]]⟩ : ProcStatW).WF := by
+  refine ⟨by decide, by decide⟩
+/-- a /dev listing with a vanished pty, two names for one device and a foreign device meets `AllDevices` -/
+example : AllDevices [(pathPts0, NodeKind.vanished), (pathTtyX, NodeKind.chr 1025), (pathPts0, NodeKind.chr 1025)] := by
+  intro e he r; simp at he; rcases he with h | h | h <;> subst h <;> simp
 
 /-! ## the hypotheses are satisfiable (non-vacuity) -/
 
